@@ -293,13 +293,39 @@ def judge_v(label, hw, fmt, u, old, new, report):
         return "raises", 0
     cmds = [tuple(p) for p in fmt.cmd_paths(patch).keys()]
     n = 0
-    for path, row in removed_rows(diff, Op):
+    for path, row in (removed_rows(diff, Op) if u["logic"] in V_LOGICS else ()):
         n += 1
         if not accounted(path, row, cmds, V_NEG[hw.vendor]):
             report({"kind": "removed-row-without-command", "logic": u["logic"], "rule": u["rule"]}, case,
                    "the diff reports %r removed at %r, no command of the patch refers to it: %r" % (row, list(path), [list(p) for p in cmds]))
             return "unaccounted", n
+    # a row the new configuration holds must not be written first and negated afterwards at the same place (the removal of
+    # one rule and key precedes its re-creation): a negation whose words are a prefix of the row's words takes the row away
+    neg = V_NEG[hw.vendor]
+    for j, pj in enumerate(cmds):
+        wj = pj[-1].split()
+        if len(wj) < 2 or wj[0] != neg:
+            continue
+        if _holds(old, pj[:-1] + (" ".join(wj[1:]),)):
+            continue        # the negation of a complete row of the old configuration, another row than the one written (no claim)
+        for pi in cmds[:j]:
+            wi = pi[-1].split()
+            if len(pi) == len(pj) and pi[:-1] == pj[:-1] and wi[0] != neg and wi[:len(wj) - 1] == wj[1:] and _holds(new, pi):
+                report({"kind": "row-written-then-negated", "logic": u["logic"], "rule": u["rule"]}, case,
+                       "at %r the patch writes %r and negates it afterwards with %r; the new configuration holds the row: %r"
+                       % (list(pi[:-1]), pi[-1], pj[-1], [list(p) for p in cmds]))
+                return "written-then-negated", n
     return ("removals" if n else "no-removal"), n
+
+
+def _holds(forest, path):
+    node = forest
+    for row in path:
+        nxt = next((ch for r, ch in node if r == row), None)
+        if nxt is None:
+            return False
+        node = nxt
+    return True
 
 
 def run_v(block, ctx):
@@ -314,7 +340,7 @@ def run_v(block, ctx):
     nmax = 3 if ctx.tier == "quick" else 4
     for idx, _cr in enumerate(c16.custom_rules(label)):
         u = c16.universe(label, idx, V_TAILS)
-        if u is None or u["logic"] not in V_LOGICS:
+        if u is None:
             continue
         ctx.extra["V_rules"] += 1
         for old, new, _n, _shape in c16.forest_cases(u, nmax):
